@@ -2,7 +2,7 @@
 import dns
 import pktgen
 
-SLICE = "TXTTEXT / ATTRMAP (a TXT built by TXT::try_from(&str) / TXT::try_from(HashMap) inside a packet, plain and compressed), BUILDW (write_to / write_compressed_to into Vec, growable cursor, fixed cursor, fixed slice) with BUILD follow-ups (the vector-returning entry points)"
+SLICE = "TXTTEXT / ATTRMAP (a TXT built by TXT::try_from(&str) / TXT::try_from(HashMap) inside a packet, plain and compressed), BUILDW (write_to / write_compressed_to into Vec, growable cursor, fixed cursor, fixed slice, std::io::BufWriter over a growable and over a fixed cursor, observed without an extra flush) with BUILD follow-ups (the vector-returning entry points)"
 RULE = ("seeded packets x {plain, compressed} x writer configurations: Vec with and without existing content; growable cursor at "
         "offset 0 / 2 / k over empty, shorter and longer pre-filled storage; a growable writer whose write() accepts only 1..5 bytes per call; fixed cursor and fixed slice of EVERY capacity from 0 "
         "to len+2 for small packets (sampled for larger ones), at offset 0 and 2. Oracle: the bytes between start and end equal the "
@@ -29,6 +29,12 @@ def cases(rng, tier):
             cfgs.append((m, "G", 3, bytes([0x55]) * (L + 20)))          # longer pre-filled storage
             cfgs.append((m, "Q", 0, b""))                                 # a writer that takes 1..5 bytes per write() call
             cfgs.append((m, "Q", 4, bytes([0x44]) * (L // 2)))
+            cfgs.append((m, "B", 0, b""))                                 # std::io::BufWriter over a growable cursor
+            cfgs.append((m, "B", 3, bytes([0x33]) * rng.below(L + 1)))
+            for cap in sorted({0, 12, L - 1, L, L + 1, rng.below(L + 1)}):
+                if cap >= 0:
+                    cfgs.append((m, "H", 0, bytes([0x22]) * cap))         # BufWriter over a fixed slice of every interesting capacity
+            cfgs.append((m, "H", 2, bytes([0x22]) * (L + 1)))
             cfgs.append((m, "G", rng.below(8), bytes([0x66]) * rng.below(L + 1)))  # shorter pre-filled storage
             caps = range(0, L + 3) if L <= 60 else sorted({0, 1, 11, 12, 13, L - 2, L - 1, L, L + 1, L + 2, rng.below(L)})
             for cap in caps:
@@ -167,7 +173,7 @@ def oracle2(case, out, fu, fu_out):
     if f:
         return "%s (%s): %s" % ("build_bytes_vec_compressed" if m == "C" else "build_bytes_vec", vec[3:203], f)
     n = len(msg)
-    fixed = kind in ("F", "S")
+    fixed = kind in ("F", "S", "H")
     if fixed and start + n > len(sto):
         if not out.startswith("ERR"):
             return "a %d-byte message was written into %d bytes of fixed storage at offset %d without an error: %r" % (n, len(sto), start, out[:200])
